@@ -911,7 +911,7 @@ def rule_state_writers(facts, rid="C01.R7"):
         return r
     famnames = {short(b.name) for b in fam.values()}
     init = ("DecoderState::new", "DecoderState::reset_state")
-    special = {"unpacked_size": ("DecoderState::new", "DecoderState::set_unpacked_size"),
+    special = {"unpacked_size": ("DecoderState::new", "DecoderState::set_unpacked_size", "LzmaDecoder::reset", "Lzma2Decoder::parse_lzma"),
                "partial_input_buf": ("DecoderState::new", "DecoderState::process_mode", "DecoderState::read_partial_input_buf")}
     fields = [f["name"] for f in adt["variants"][0]["fields"]]
     writers = {}
